@@ -91,6 +91,11 @@ func TestVerifC15(t *testing.T) {
 			policy += fmt.Sprintf("p, admin, %s, %s\n", res, m)
 		}
 	}
+	// carol holds every method, on the resource s1 only: a call that asks the policy about the wrong
+	// resource, or that acts before a second (nested) check, passes for her where it must not
+	for _, m := range methods {
+		policy += fmt.Sprintf("p, carol, s1, %s\n", m)
+	}
 	os.WriteFile(policyPath, []byte(policy), 0o644)
 	enf, err := casbin.NewEnforcer(modelPath, policyPath)
 	if err != nil {
@@ -147,7 +152,13 @@ func TestVerifC15(t *testing.T) {
 	snapshot := func() vM {
 		p1 := srv.s.metadata.GetPartition("s1", 0)
 		p2 := srv.s.metadata.GetPartition("s2", 0)
-		st := vM{"s1_exists": p1 != nil, "s2_exists": p2 != nil, "new_exists": srv.s.metadata.GetStream("new1") != nil}
+		st := vM{"s1_exists": p1 != nil, "s2_exists": p2 != nil, "new_exists": srv.s.metadata.GetStream("new1") != nil, "other_exists": srv.s.metadata.GetStream("other1") != nil}
+		if p2 != nil && !p2.IsPaused() {
+			st["s2_newest"] = p2.log.NewestOffset()
+		}
+		if p2 != nil {
+			st["s2_readonly"] = p2.GetReadonly()
+		}
 		if p1 != nil {
 			st["s1_newest"] = p1.log.NewestOffset()
 			st["s1_paused"] = p1.IsPaused()
@@ -312,6 +323,33 @@ func TestVerifC15(t *testing.T) {
 	report("ReportConsumerGroupCoordinator", err, 0, "")
 	_, err = api.LeaveConsumerGroup(as(mallory), &client.LeaveConsumerGroupRequest{GroupId: "g1", ConsumerId: "member1"})
 	report("LeaveConsumerGroup", err, 0, "")
+
+	// ---- the client whose entries name another resource
+	carol := "carol"
+	_, err = api.CreateStream(as(carol), &client.CreateStreamRequest{Name: "other1", Subject: "s1", Partitions: 1})
+	report("CreateStream(entry for another stream whose name is this stream's subject)", err, 0, "")
+	_, err = api.SetCursor(as(carol), &client.SetCursorRequest{Stream: "s1", Partition: 0, CursorId: "cur", Offset: 1})
+	report("SetCursor(entry for the stream, none for the cursors stream it publishes to)", err, 0, "")
+	_, err = api.DeleteStream(as(carol), &client.DeleteStreamRequest{Name: "s2"})
+	report("DeleteStream(entry for another stream)", err, 0, "")
+	_, err = api.SetStreamReadonly(as(carol), &client.SetStreamReadonlyRequest{Name: "s2", Readonly: true})
+	report("SetStreamReadonly(entry for another stream)", err, 0, "")
+	_, err = api.Publish(as(carol), &client.PublishRequest{Stream: "s2", Value: []byte("evil"), AckPolicy: client.AckPolicy_NONE})
+	report("Publish(entry for another stream)", err, 0, "")
+	_, err = api.PublishToSubject(as(carol), &client.PublishToSubjectRequest{Subject: "s2", Value: []byte("evil"), AckPolicy: client.AckPolicy_NONE})
+	report("PublishToSubject(entry for another subject)", err, 0, "")
+	fc2, err := api.FetchCursor(as(carol), &client.FetchCursorRequest{Stream: "s2", Partition: 0, CursorId: "cur"})
+	extra = ""
+	if fc2 != nil {
+		extra = "cursor value returned"
+	}
+	report("FetchCursor(entry for another stream)", err, 0, extra)
+	fpm2, err := api.FetchPartitionMetadata(as(carol), &client.FetchPartitionMetadataRequest{Stream: "s2", Partition: 0})
+	extra = ""
+	if fpm2 != nil {
+		extra = "partition metadata returned"
+	}
+	report("FetchPartitionMetadata(entry for another stream)", err, 0, extra)
 
 	// ---- a policy reload takes effect for subsequent calls
 	os.WriteFile(policyPath, []byte(policy+"p, mallory, s1, PauseStream\n"), 0o644)
